@@ -44,6 +44,9 @@ Definition w_addr_h2 : bytes := [0;0;132;0;0;0;0;0;0;0;0;1;5;104;111;115;116;50;
 (* round 6: a second address of host1 *)
 Definition w_addr_h1_new : bytes := [0;0;132;0;0;0;0;0;0;0;0;1;5;104;111;115;116;49;5;108;111;99;97;108;0;0;1;128;1;0;0;0;120;0;4;192;168;1;51] .
 
+(* round 9: PTR (TTL 120) and its goodbye in one packet *)
+Definition w_ptr_and_bye : bytes := [0;0;132;0;0;0;0;2;0;0;0;0;5;95;104;116;116;112;4;95;116;99;112;5;108;111;99;97;108;0;0;12;0;1;0;0;0;120;0;6;3;119;101;98;192;12;192;12;0;12;0;1;0;0;0;0;0;2;192;40] .
+
 Definition ex_ifs : iftab := [(2, (true, true)); (3, (true, false))].
 Definition T0 : N := 1000000.
 
@@ -433,4 +436,23 @@ Lemma complete_example :
          [ex_hist; restart_hist; mixedcase_hist; quick_hist; brexp_hist; again_hist]
      = [true; true; true; true; true; true]
   /\ map (complete_class ex_ifs) [lastsec_hist; srvtgt_hist] = [false; false].
+Proof. repeat split; vm_compute; reflexivity. Qed.
+
+(* C04-found-withdrawn-in-same-message (round 9, the daemon agrees): the PTR record and its goodbye
+   arrive in one packet: ServiceFound, no follow-up question at +500 although the (expiring) PTR is
+   still cached; ServiceRemoved at +1000 *)
+Definition withdrawn_hist : list iter :=
+  [ mkIter T0 [] [CBrowse n_ty 1];
+    mkIter (T0 + 100) [mkDgram 2 true w_ptr_and_bye] [];
+    mkIter (T0 + 600) [] [];
+    mkIter (T0 + 1100) [] [];
+    mkIter (T0 + 2000) [] [] ].
+
+Lemma found_withdrawn_witness :
+  wf_history withdrawn_hist = true /\ known_found_withdrawn ex_ifs withdrawn_hist = true
+  /\ map (fun o => (existsb is_found_evt o, questions_of o)) (run_history ex_ifs withdrawn_hist)
+     = [(false, []); (true, []); (false, []); (false, []); (false, [])]
+  /\ existsb is_followup_fail (viol_C04 ex_ifs withdrawn_hist (ex_wakes withdrawn_hist) (map obs_of (run_history ex_ifs withdrawn_hist))) = true
+  /\ known_found_withdrawn ex_ifs ex_follow = false /\ known_found_withdrawn ex_ifs ex_hist = false
+  /\ known_found_withdrawn ex_ifs lastsec_hist = false.
 Proof. repeat split; vm_compute; reflexivity. Qed.
